@@ -87,6 +87,11 @@ def run_case(case, col=None):
             continue
         variants.append((cfg, oc.teal, prog))
     out = []
+    for cfg, teal, _p in variants:
+        iss = diff.unassemblable(teal, cfg["version"], recipe.get("mode", "app"))
+        if iss is not None:
+            out.append(("unassemblable:%s" % iss.kind, "cfg=%s: the emitted program cannot be assembled: %s\n--- TEAL ---\n%s" % (diff.cfg_key(cfg), iss, diff.short_teal(teal, 60))))
+            return out
     if len(variants) < 2:
         case["_nt"] = False
         return out
